@@ -14,6 +14,8 @@ FUNCTIONS = [
     ("verif_ghost.c11.sources_after_targets", LEM),
     "sqllineage.core.holders.SQLLineageHolder._build_digraph",
     ("sqllineage.core.holders.ColumnLineageMixin.get_column_lineage", ["modeltypes", "config", "metadata", "holders", "holders_c06"]),
+    # the candidate owners of an unresolved column are listed in an order that is a function of the SET (sorted by printed name)
+    ("sqllineage.core.models.Column.parent_candidates", ["modeltypes", "config", "models", "columns"]),
 ]
 SITE_CHECKS = [("pick sites: no result depends on which element a set hands out first (K3)", lambda repo: sitescan.pick_sites(repo, "C11"))]
 EXPLANATION = (
